@@ -163,12 +163,13 @@ def extract_playback_test(text):
 def unwindset_args(build, name, hints):
     """Per-loop unwinding bounds: hints maps a substring of the loop's function (as printed by
     goto-instrument --show-loops) to a bound; loops not matched keep the harness's #[kani::unwind]."""
-    if not hints:
-        return []
+    # the container model's loops run over its CAP (=8) slots whatever the harness's own bound is
+    hints = dict({"function vcoll::": 9, "as std::iter::Iterator>::next": 9} if hints is None or True else {}, **(hints or {}))
     import glob
     cands = glob.glob(os.path.join(build.target, "kani", "*", "debug", "build", "ggrs", "*", "out", "*%d%s.out" % (len(name), name)))
     if not cands:
         raise EncodingError("unwindset: goto binary of harness %s not found" % name)
+    cands.sort(key=lambda f: -os.path.getmtime(f))
     out = subprocess.run(["goto-instrument", "--show-loops", cands[0]], capture_output=True, text=True, errors="replace").stdout
     pairs = []
     lines = out.split("\n")
@@ -234,7 +235,7 @@ def inject_playback(path, modname, code):
     """Insert the generated #[test] right after the opening line of the harness module (so that it
     sees the module's private harness functions)."""
     src = open(path).read()
-    m = re.search(r"^mod\s+%s\s*\{[^\n]*\n" % re.escape(modname), src, re.M)
+    m = re.search(r"^(?:pub\(crate\)\s+)?mod\s+%s\s*\{[^\n]*\n" % re.escape(modname), src, re.M)
     if not m:
         raise EncodingError("playback: module %s not found in %s" % (modname, path))
     u = src.index("use super::*;", m.end()) + len("use super::*;")
